@@ -8,7 +8,7 @@ for k in sorted(res['seeded']):
     r=res['seeded'][k]
     summ=r['summary'].replace('|','/').replace('\n',' ')
     if len(summ)>170: summ=summ[:170]+'…'
-    rows.append(f"| {k} | {r['property']} | {summ} | {'yes' if r['caught'] else 'NO'} | `{'`, `'.join(r['keys'][:2])}` |")
+    rows.append(f"| {k} | {r['property']} | {summ} | {'yes' if r['caught'] else ('by '+r['caught_by_other'] if r.get('caught_by_other') else 'NO')} | `{'`, `'.join((r['keys'] or r.get('other_keys') or [])[:2])}` |")
 seeded="| id | prop | change (sub-agent's summary) | caught by the quick check | first keys |\n|---|---|---|---|---|\n"+"\n".join(rows)
 frows=[]
 for k,r in res['fixes'].items():
